@@ -55,7 +55,7 @@ class TypeRef:
 
 # uninterpreted functions of the library models that contracts may name (argument sorts then result sort)
 SPEC_UFS = {'isnumeral': 'SIB', 'numval': 'SII', 'nsplit': 'SSI', 'splitpart': 'SSIS', 'trimspace': 'SS', 'trimsuffix': 'SSS',
-            'atoi_ok': 'SB', 'atoi_val': 'SI', 'cutbefore': 'SSS', 'cutafter': 'SSS', 'cutfound': 'SSB', 'bigexp': 'III'}
+            'atoi_ok': 'SB', 'atoi_val': 'SI', 'cutbefore': 'SSS', 'cutafter': 'SSS', 'cutfound': 'SSB', 'bigexp': 'III', 'decstr': 'IS', 'ratstr': 'RS'}
 
 
 class SpecEval:
@@ -663,7 +663,7 @@ class SpecEval:
         if name == 'floor':
             return z3.ToInt(self.eval_term(args[0], env))
         if name in SPEC_UFS:
-            sorts = [{'S': m.Str, 'I': m.Int, 'B': m.Bool}[c] for c in SPEC_UFS[name]]
+            sorts = [{'S': m.Str, 'I': m.Int, 'B': m.Bool, 'R': m.Real}[c] for c in SPEC_UFS[name]]
             f = m.uf(name, *sorts)
             return f(*[self.eval_term(a, env) for a in args])
         if name in self.ex.db.relations or name in self.ex.db.functions:
@@ -680,6 +680,10 @@ class SpecEval:
             rs = m.Bool if name in self.ex.db.relations else {'Int': m.Int, 'Bool': m.Bool, 'Str': m.Str}[self.ex.db.functions[name]]
             f = m.uf('rel_' + name, *([l.sort() for l in leaves] + [rs]))
             return f(*leaves)
+        if name == 'fraction':
+            # fraction(n, d): the rational n/d as the library model of big.Rat.SetFrac builds it
+            from . import lib
+            return lib.fraction(self.ex, env.live, self.eval_term(args[0], env), self.eval_term(args[1], env))
         if name == 'ssub':
             return m.ssub(self.eval_term(args[0], env), self.eval_term(args[1], env), self.eval_term(args[2], env))
         if name == 'slen':
